@@ -511,6 +511,15 @@ func runStress(r *ev.Run, rc *reach) {
 			}
 		}
 	})
+	timed(r, "nfs-gated", func() {
+		n := r.Pick(24, 480)
+		hangs := 0
+		for i := 0; i < n && hangs < 2; i++ {
+			if nfsGatedRound(r, rc, i) != roundFinished {
+				hangs++
+			}
+		}
+	})
 	timed(r, "nfs-stress", func() {
 		nNFS := r.Pick(30, 600)
 		hangs := 0
@@ -538,6 +547,8 @@ func runStress(r *ev.Run, rc *reach) {
 	r.Floor("file-stress:persistency-node-applies-racing-mutators", 100000)
 	r.Floor("file-stress:calls-overlapping-the-other-side-on-the-same-file", 10000)
 	r.Floor("stress-round-finished:file", 3)
+	r.Floor("nfs40-second-call-waited-for-the-first-with-the-program-lock-dropped", 5)
+	r.Floor("nfs41-second-call-waited-for-the-first-with-the-program-lock-dropped", 5)
 	r.Floor("lockpile-backoff", 20)
 	r.Floor("overlap:opposite-direction-renames", 50)
 	r.Floor("overlap:parent-to-child-rename-racing-directory-rename", 20)
